@@ -13,6 +13,8 @@ predicate("hash_ok", ["u: Ref[UnitsContainer]"],
           "is_none(u._hash) or some(u._hash) == hash_items(view(u))")
 predicate("alloc_ok", ["u: Ref[UnitsContainer]"], "allocated(u) and allocated(u._d)")
 predicate("wf", ["u: Ref[UnitsContainer]"], "alloc_ok(u) and no_zero(u) and hash_ok(u)")
+# functions that compare containers may fill in lazily cached hashes of any container, but only with the right value
+predicate("HashesKept", [], "forall[Ref[UnitsContainer]](lambda u: implies(old(hash_ok(u)), hash_ok(u)), 'u._hash')")
 
 UC = "pint.util:UnitsContainer"
 
